@@ -1999,7 +1999,17 @@ impl OffsetConflict {
             Fold { before, after }
                 if is_equal(given, before) || is_equal(given, after) =>
             {
-                let kind = Unambiguous { offset: given };
+                // Use the time zone's own offset and not the one given:
+                // they may only be "equal" according to the caller (e.g.,
+                // after rounding to the nearest minute).
+                let offset = if given == before || given == after {
+                    given
+                } else if is_equal(given, before) {
+                    before
+                } else {
+                    after
+                };
+                let kind = Unambiguous { offset };
                 AmbiguousTimestamp::new(dt, kind)
             }
             _ => amb,
@@ -2071,8 +2081,18 @@ impl OffsetConflict {
                     tzname = tz.diagnostic_name(),
                 ))
             }
-            Fold { .. } => {
-                let kind = Unambiguous { offset: given };
+            Fold { before, after } => {
+                // Use the time zone's own offset and not the one given:
+                // they may only be "equal" according to the caller (e.g.,
+                // after rounding to the nearest minute).
+                let offset = if given == before || given == after {
+                    given
+                } else if is_equal(given, before) {
+                    before
+                } else {
+                    after
+                };
+                let kind = Unambiguous { offset };
                 Ok(AmbiguousTimestamp::new(dt, kind).into_ambiguous_zoned(tz))
             }
         }
